@@ -112,6 +112,10 @@ def draw_fit(seed, i, fixtures, tier):
     if fx.get('lib') and all((fx['runname'], c) in have for c in range(1, fx['compl'])) and rng.random() < 0.3:
         # rank 0 writes previous_eqns_<n>.txt into the library directory, every rank reads it while fitting
         opts['test_all']['ignore_previous_eqns'] = True
+    if rng.random() < 0.4:
+        # the progress period of every stage (a documented argument): small values put the periodic code inside tiny shares
+        for st in ('test_all', 'fisher', 'match', 'combine'):
+            opts.setdefault(st, {})['print_frequency'] = rng.choice([1, 2, 3, 7])
     extra = {}
     weak = None
     if rng.random() < (0.5 if fx['runname'].startswith('synth') else 0.15):
